@@ -49,8 +49,37 @@ fn catchable() -> Vec<c_int> {
     (1..=64).filter(|s| !signal_hook_registry::FORBIDDEN.contains(s) && *s != 32 && *s != 33).collect()
 }
 
+/// Captured by a few of the registered actions: its Drop panics, so the removal call that drops the last reference unwinds.
+/// The registry must be exactly what the model says afterwards, like after any other removal.
+struct DropPanics;
+static DROP_PANICS_ON: std::sync::atomic::AtomicBool = std::sync::atomic::AtomicBool::new(true);
+
+impl Drop for DropPanics {
+    fn drop(&mut self) {
+        if DROP_PANICS_ON.load(Ordering::SeqCst) && !std::thread::panicking() {
+            panic!("captured state panics in Drop");
+        }
+    }
+}
+
+/// A removal call; `Err(())` if it unwound with the panic of `DropPanics` (the removal itself has happened).
+fn removal<R>(f: impl FnOnce() -> R) -> Result<R, ()> {
+    match std::panic::catch_unwind(std::panic::AssertUnwindSafe(f)) {
+        Ok(r) => Ok(r),
+        Err(p) => {
+            let msg = p.downcast_ref::<&str>().map(|s| s.to_string()).or_else(|| p.downcast_ref::<String>().cloned()).unwrap_or_default();
+            if msg.contains("captured state panics in Drop") {
+                Err(())
+            } else {
+                std::panic::resume_unwind(p)
+            }
+        }
+    }
+}
+
 fn child(seed: u64, ops: u64, fd: i32) -> i32 {
     use fork::wr;
+    std::panic::set_hook(Box::new(|_| {}));
     unsafe {
         // the Rust runtime's SIGBUS handler must not be chained (it resets the disposition when it
         // sees a SIGBUS that is not a stack overflow)
@@ -95,7 +124,15 @@ fn child(seed: u64, ops: u64, fd: i32) -> i32 {
             // ---- register / register_sigaction
             let tag = next_tag;
             next_tag += 1;
-            let res = if rng.chance(1, 2) {
+            let res = if rng.chance(1, 24) {
+                let p = DropPanics;
+                unsafe {
+                    signal_hook_registry::register(sig, move || {
+                        let _ = &p;
+                        ran(tag)
+                    })
+                }
+            } else if rng.chance(1, 2) {
                 unsafe { signal_hook_registry::register(sig, move || ran(tag)) }
             } else {
                 unsafe {
@@ -129,7 +166,7 @@ fn child(seed: u64, ops: u64, fd: i32) -> i32 {
                         _ => rng.below(v.len() as u64) as usize,
                     };
                     let (id, _) = v.remove(k);
-                    if !signal_hook_registry::unregister(id) {
+                    if removal(|| signal_hook_registry::unregister(id)) == Ok(false) {
                         report(format!("op {}: unregister of a live action of signal {} returned false", i, sig));
                     }
                     removed.push(id);
@@ -153,7 +190,7 @@ fn child(seed: u64, ops: u64, fd: i32) -> i32 {
                 let v = model.get_mut(&o).unwrap();
                 let k = rng.below(v.len() as u64) as usize;
                 let (id, _) = v.remove(k);
-                if !signal_hook_registry::unregister(id) {
+                if removal(|| signal_hook_registry::unregister(id)) == Ok(false) {
                     report(format!("op {}: unregister of a live action of signal {} returned false", i, o));
                 }
                 removed.push(id);
@@ -164,7 +201,7 @@ fn child(seed: u64, ops: u64, fd: i32) -> i32 {
             // ---- unregister_signal
             let had = model.get(&sig).map(|v| !v.is_empty()).unwrap_or(false);
             #[allow(deprecated)]
-            let res = signal_hook_registry::unregister_signal(sig);
+            let res = removal(|| signal_hook_registry::unregister_signal(sig)).unwrap_or(had);
             if res != had {
                 report(format!("op {}: unregister_signal({}) returned {}, the model has {} actions", i, sig, res, model.get(&sig).map(|v| v.len()).unwrap_or(0)));
             }
